@@ -39,6 +39,7 @@ from .values import (
     CallbackVal,
     DObj,
     ElemRef,
+    ExtObj,
     Func,
     IntSeq,
     LObj,
@@ -375,6 +376,8 @@ def call_method(ex, recv, name, args, kwargs, node=None):
             return dict_method(ex, recv, ho, name, args, kwargs)
         if isinstance(ho, MObj):
             return map_method(ex, recv, ho, name, args, kwargs)
+        if isinstance(ho, ExtObj):
+            return ho.ext_method(ex, recv, name, args, kwargs)
     if isinstance(recv, (Sym, bytes, bytearray)) and ex.kind_of(recv) == 'bytes':
         return bytes_method(ex, recv, name, args, kwargs)
     if isinstance(recv, Sym) and recv.k in ('int', 'bool'):
